@@ -428,3 +428,28 @@ def _root(f, op, depth=0):
         if d[0] == "assign" and d[3][0] == "use" and op_local(d[3][1]) is not None:
             return _root(f, d[3][1], depth + 1)
     return l
+
+
+def r10i_no_textual_path_prefix(ctx):
+    r = Result("R10i", "an ancestor test between two paths is component-wise (`Path::starts_with`): `str::starts_with` between two "
+                       "paths rendered as text also accepts siblings whose name merely extends the other (tests_integration vs tests)")
+    crate = ctx.bin
+    n = 0
+    for f in crate.real_fns():
+        for bb, c in f.calls():
+            res = c.get("res") or ""
+            if c["span"][4].startswith("macro:"):
+                continue
+            if res.endswith("std::path::Path::starts_with"):
+                n += 1
+                r.ok(sample={"component_wise": f.id.split("::")[-1]} if len(r.samples) < 3 else None)
+            if re.search(r"<impl str>::starts_with$", res) and len(c["args"]) > 1:
+                pat = r"Path::to_string_lossy$|Path::to_str$|Path::display$|OsStr::to_string_lossy$|OsStr::to_str$"
+                a = _derives_from_call(f, c["args"][0], pat) and not _derives_from_call(f, c["args"][0], r"Path::file_name$|Path::extension$|Path::file_stem$")
+                b = _derives_from_call(f, c["args"][1], pat) and not _derives_from_call(f, c["args"][1], r"Path::file_name$|Path::extension$|Path::file_stem$")
+                if a and b:
+                    n += 1
+                    r.violate("R10i|%s|textual prefix test between paths" % f.id,
+                              "string prefix test between two rendered paths at %s" % crate.span_str(c["span"]))
+    r.floor("path ancestor tests", n, 5)
+    return r
